@@ -605,6 +605,30 @@ def corners(ctx, libdir):
     ctx.obligation("searcher:C09 corners of the quantified space ran %d configurations" % n, n > 0, "")
 
 
+def history(ctx, libdir):
+    """history versus fresh object (tools/c09_search.py --history), in a child process"""
+    out = os.path.join(vlib.BUILD, "c09_history_%d.json" % os.getpid())
+    try:
+        r = vlib.run_py(libdir, os.path.join(HERE, "c09_search.py"), ["--history", out, ctx.seed], timeout=900)
+    except subprocess.TimeoutExpired:
+        ctx.obligation("searcher:C09 history versus fresh object finished", False, "timeout"); return
+    rep = json.load(open(out)) if os.path.exists(out) else None
+    cur = json.load(open(out + ".cur")) if os.path.exists(out + ".cur") else None
+    for f in (out, out + ".cur"):
+        if os.path.exists(f): os.remove(f)
+    if rep is None:
+        ctx.violation("history-crash", {"check": "history", "last_case": cur, "status": r.returncode}, True,
+                      "the library process died (status %s) in a history-versus-fresh scenario: %s" % (r.returncode, json.dumps(cur)[:300]))
+        return
+    for k in rep["keys"]: ctx.case(key=k)
+    seen = set()
+    for f in rep["fails"]:
+        if f["key"] in seen: continue
+        seen.add(f["key"])
+        ctx.violation(f["key"], f["replay"], True, f["why"])
+    ctx.obligation("searcher:C09 history versus fresh object ran %d scenarios" % rep["evaluations"], rep["evaluations"] > 0, "")
+
+
 def run(ctx):
     libdir = ctx.lib()
     T = parse_tables()
@@ -616,6 +640,7 @@ def run(ctx):
     correspondence(ctx, libdir, T); ctx.log("correspondence done")
     probes(ctx, libdir)
     corners(ctx, libdir); ctx.log("corners done")
+    history(ctx, libdir)
     search(ctx, libdir, "default"); ctx.log("searcher (default build) done")
     have_avx = False
     try:
